@@ -279,7 +279,7 @@ class RC:
         for loc, k, _ in self.ops:
             if k[0] == 'T':
                 for j, q in enumerate(loc):
-                    lines[q].append((k[1], j, ()))
+                    lines[q].append((k[1], j, k[2] if len(k) > 2 else ()))
             else:
                 inner = k[1].flat()
                 for j, q in enumerate(loc):
@@ -290,7 +290,7 @@ class RC:
         """Same shape as nf_top without the cycle (None cycles are not compared)."""
         lines: list = [[] for _ in range(self.W)]
         for loc, k, cyc in self.ops:
-            key = ('T', k[1], ()) if k[0] == 'T' else ('B', k[1].flat())
+            key = ('T', k[1], k[2] if len(k) > 2 else ()) if k[0] == 'T' else ('B', k[1].flat())
             for j, q in enumerate(loc):
                 lines[q].append((cyc, key, j))
         return tuple(tuple(x) for x in lines)
@@ -299,14 +299,18 @@ class RC:
         return sum(1 for loc, _, _ in self.ops if len(loc) == 1)
 
 
-def rc_from(circ: Circuit) -> RC:
-    """Before-state read from the real circuit through the public API."""
+def rc_from(circ: Circuit, params: Any = None) -> RC:
+    """Before-state read from the real circuit through the public API. `params` (for the inner circuit of a
+    block) are the owning operation's parameters, consumed in iteration order."""
     rc = RC(circ.num_qudits)
+    i = 0
     for cyc, op in circ.operations_with_cycles():
+        ps = list(op.params) if params is None else list(params[i:i + op.num_params])
+        i += op.num_params
         if isinstance(op.gate, CircuitGate):
-            key: tuple = ('B', rc_from(op.gate._circuit))
+            key: tuple = ('B', rc_from(op.gate._circuit, ps))
         else:
-            key = ('T', op.gate.tag)
+            key = ('T', op.gate.tag) if not ps else ('T', op.gate.tag, tuple(ps))
         rc.ops.append([tuple(op.location), key, cyc])
     return rc
 
